@@ -1,10 +1,13 @@
 import Holpy.Common.Sexp
 import Holpy.C10.Model
+import Holpy.C10.PolyModel
 /-
 Line protocol of the C10 model (one s-expression in, one out):
   (acnorm TREE)            -> TREE                       conj_norm / disj_norm on member ids
   (conv FUEL CE TERM)      -> (ok LHS RHS) | (err KIND)  conversion combinators
   (natnorm ONE NEXP)       -> NEXP                       data/nat.py norm_full (see Model.lean)
+  (topoly EXPR)            -> ((((atom power) ...) num den) ...)   convert_to_poly (PolyModel.lean)
+  (frompoly EXPR)          -> EXPR                       from_poly (convert_to_poly e)
   (isnf ONE NEXP)          -> T | F                      the normal-form predicate of norm_idem
 TREE = n | (n L R);  TERM = (a n) | (c F A) | (l x BODY);  PAT = (v n) | (a n) | (c F A)
 CE   = all | no | (rewr L R) | (then A B) | (else A B) | (try A) | (comb A B) | (comb1 A) | (arg A)
@@ -87,6 +90,34 @@ partial def nexpTo : NExp → Sexp
   | .mul a b => .list [.atom "mul", nexpTo a, nexpTo b]
   | .suc a => .list [.atom "suc", nexpTo a]
 
+/-! polynomial layer: EXPR = (at i) | (num n d) | (add a b) | (mul a b) | (neg a) | (sub a b) | (pow a k) | (scale n d a) -/
+open Holpy.C10.Poly in
+partial def pexpOf : Sexp → Option (PExp Rat)
+  | .list [.atom "at", i] => do some (.atom (← i.toNat?))
+  | .list [.atom "num", n, d] => do some (.num (mkRat (← n.toInt?) (← d.toNat?)))
+  | .list [.atom "add", a, b] => do some (.add (← pexpOf a) (← pexpOf b))
+  | .list [.atom "mul", a, b] => do some (.mul (← pexpOf a) (← pexpOf b))
+  | .list [.atom "neg", a] => do some (.neg (← pexpOf a))
+  | .list [.atom "sub", a, b] => do some (.sub (← pexpOf a) (← pexpOf b))
+  | .list [.atom "pow", a, k] => do some (.pow (← pexpOf a) (← k.toNat?))
+  | .list [.atom "scale", n, d, a] => do some (.scale (mkRat (← n.toInt?) (← d.toNat?)) (← pexpOf a))
+  | _ => none
+
+open Holpy.C10.Poly in
+partial def pexpTo : PExp Rat → Sexp
+  | .atom i => .list [.atom "at", Sexp.ofNat i]
+  | .num c => .list [.atom "num", Sexp.ofInt c.num, Sexp.ofNat c.den]
+  | .add a b => .list [.atom "add", pexpTo a, pexpTo b]
+  | .mul a b => .list [.atom "mul", pexpTo a, pexpTo b]
+  | .neg a => .list [.atom "neg", pexpTo a]
+  | .sub a b => .list [.atom "sub", pexpTo a, pexpTo b]
+  | .pow a k => .list [.atom "pow", pexpTo a, Sexp.ofNat k]
+  | .scale c a => .list [.atom "scale", Sexp.ofInt c.num, Sexp.ofNat c.den, pexpTo a]
+
+def polyTo (p : Holpy.C10.Poly.PolyL Rat) : Sexp :=
+  .list (p.map fun t => .list [.list (t.1.map fun f => .list [Sexp.ofNat f.1, Sexp.ofNat f.2]),
+    Sexp.ofInt t.2.num, Sexp.ofNat t.2.den])
+
 def errTo : Err → String
   | .conv => "conv"
   | .invalid => "invalid"
@@ -106,6 +137,14 @@ def handle (line : String) : String :=
       | .ok (l, r) => toString (Sexp.list [.atom "ok", termTo l, termTo r])
       | .error e => toString (Sexp.list [.atom "err", .atom (errTo e)])
     | _, _, _ => "bad-op"
+  | some (.list [.atom "topoly", e]) =>
+    match pexpOf e with
+    | some e => toString (polyTo (Holpy.C10.Poly.toPoly e))
+    | none => "bad-op"
+  | some (.list [.atom "frompoly", e]) =>
+    match pexpOf e with
+    | some e => toString (pexpTo (Holpy.C10.Poly.fromPoly (Holpy.C10.Poly.toPoly e)))
+    | none => "bad-op"
   | some (.list [.atom "isnf", one, t]) =>
     match one.toNat?, nexpOf t with
     | some o, some t => toString (Sexp.ofBool (isNF o t))
